@@ -178,6 +178,14 @@ class Generator:
             rng = self.src.impl_block_containing(r"^impl<'bump, T: 'bump> Vec<'bump, T>$", src_name)
         elif impl == 'string':
             rng = self.src.impl_block_containing(r"^impl<'bump> String<'bump>$", src_name)
+        elif impl == 'dfnext':
+            rng = self.src.impl_block_containing(r"^impl<'a, 'bump, T, F> Iterator for DrainFilter<'a, 'bump, T, F> where", src_name)
+        elif impl == 'dfdrop':
+            rng = self.src.impl_block_containing(r"^impl<'a, 'bump, T, F> Drop for DrainFilter<'a, 'bump, T, F> where", src_name)
+        elif impl == 'nested':
+            outer = self.src.impl_block_containing(spec['outer_impl'].replace('~', ' '), spec['nested_in'])
+            _s, o_, c_ = self.src.find_fn(spec['nested_in'], outer)
+            rng = self.src.nested_impl_block((o_, c_), spec['nested_impl'].replace('~', ' '))
         elif impl == 'setlen':
             rng = self.src.impl_block_containing(r"^impl<'a> SetLenOnDrop<'a>$", src_name)
         elif impl == 'free':
@@ -190,7 +198,9 @@ class Generator:
         if region:
             body = self.cut_region(body, region)
         cfg = {
-            'kind': 'footer' if impl == 'footer' else ('vec' if impl == 'vec' else impl),
+            'kind': 'footer' if impl == 'footer' else ('vec' if impl == 'vec' else (spec.get('kind') or impl)),
+            'guard': spec.get('guard'),
+            'strip_nested': spec.get('strip_nested'),
             'footer_fields': [n for n, _, _, _ in self.footer_fields],
             'self_cells': self.bump_cells if impl in ('bump', 'bump1', 'drop') else (['footer'] if impl == 'iter' else []),
             'w_funcs': self.w_funcs,
